@@ -36,6 +36,7 @@ package pool
 //@   requires max <= pmath.maxintHeadBit
 //@   ensures inv(result) && result != nil
 //@   ensures covers: implies(max >= 1, result.stepSize * len(result.pool) >= max)
+//@   ensures step_bound: implies(max <= 1<<46, result.stepSize <= 1<<47)
 
 //@ func (*Pool[T]).Get
 //@   params p size
